@@ -118,6 +118,13 @@ def auto_discharge(body, src):
     if kind.startswith("Overflow("):
         if len(ops) == 2 and op_const(ops[0]) is not None and op_const(ops[1]) is not None:
             return "A1 both operands are compile-time constants"
+        if kind in ("Overflow(Shl)", "Overflow(Shr)") and len(ops) == 2 and op_const(ops[1]) is not None:
+            sh = op_const(ops[1]).get("int")
+            l0 = op_local(ops[0])
+            ty = body.local_ty(l0) if l0 is not None else (op_const(ops[0]) or {}).get("ty", "")
+            bits = {"u8": 8, "i8": 8, "u16": 16, "i16": 16, "u32": 32, "i32": 32, "u64": 64, "i64": 64, "usize": 64, "isize": 64, "u128": 128, "i128": 128}.get(ty)
+            if sh is not None and bits and 0 <= sh < bits:
+                return "A1 constant shift amount %d < %d bits" % (sh, bits)
         # find the checked op statement in the block
         for st in reversed(blk["stmts"]):
             if st["s"] == "assign" and st["rv"]["k"] == "binop" and st["rv"]["op"].endswith("WithOverflow"):
